@@ -687,3 +687,105 @@ func OutermostParent(f *ssa.Function) *ssa.Function {
 	}
 	return f
 }
+
+// ErrTests returns the If instructions that test value v against nil, where the tested operand
+// is v itself or a load of a local cell whose reaching store (same block, latest before the
+// load) stored v. For each, NonNilSucc is the successor taken when v != nil.
+type ErrTest struct {
+	If         *ssa.If
+	NonNilSucc *ssa.BasicBlock
+	NilSucc    *ssa.BasicBlock
+}
+
+func ErrTests(v ssa.Value) []ErrTest {
+	fn := v.(ssa.Instruction).Parent()
+	var out []ErrTest
+	Instrs(fn, func(in ssa.Instruction) {
+		ifi, ok := in.(*ssa.If)
+		if !ok {
+			return
+		}
+		bo, ok := ifi.Cond.(*ssa.BinOp)
+		if !ok || (bo.Op != token.NEQ && bo.Op != token.EQL) {
+			return
+		}
+		var x ssa.Value
+		switch {
+		case IsNilConst(bo.Y):
+			x = bo.X
+		case IsNilConst(bo.X):
+			x = bo.Y
+		default:
+			return
+		}
+		if !carries(x, v) {
+			return
+		}
+		t := ErrTest{If: ifi}
+		if bo.Op == token.NEQ {
+			t.NonNilSucc, t.NilSucc = ifi.Block().Succs[0], ifi.Block().Succs[1]
+		} else {
+			t.NonNilSucc, t.NilSucc = ifi.Block().Succs[1], ifi.Block().Succs[0]
+		}
+		out = append(out, t)
+	})
+	return out
+}
+
+// carries: x is v, or x is a load of a cell whose latest preceding store in the same block (or in
+// the unique chain of single-predecessor blocks) stored v.
+func carries(x, v ssa.Value) bool {
+	if Strip(x) == v {
+		return true
+	}
+	u, ok := x.(*ssa.UnOp)
+	if !ok || u.Op != token.MUL {
+		return false
+	}
+	cell := u.X
+	b := u.Block()
+	i := idx(u) - 1
+	for hops := 0; hops < 4; hops++ {
+		for ; i >= 0; i-- {
+			if st, ok := b.Instrs[i].(*ssa.Store); ok && st.Addr == cell {
+				return Strip(st.Val) == v
+			}
+		}
+		if len(b.Preds) != 1 {
+			return false
+		}
+		b = b.Preds[0]
+		i = len(b.Instrs) - 1
+	}
+	return false
+}
+
+// AllPathsReturnAvoiding reports whether every path from the start of block b reaches a Return
+// without executing any instruction of avoid and without entering a cycle forever (cycles are
+// allowed as long as no avoid instruction is on them).
+func AllPathsReturnAvoiding(b *ssa.BasicBlock, avoid []ssa.Instruction) bool {
+	av := map[ssa.Instruction]bool{}
+	for _, x := range avoid {
+		av[x] = true
+	}
+	seen := map[*ssa.BasicBlock]bool{}
+	ok := true
+	var walk func(x *ssa.BasicBlock)
+	walk = func(x *ssa.BasicBlock) {
+		if seen[x] || !ok {
+			return
+		}
+		seen[x] = true
+		for _, in := range x.Instrs {
+			if av[in] {
+				ok = false
+				return
+			}
+		}
+		for _, s := range x.Succs {
+			walk(s)
+		}
+	}
+	walk(b)
+	return ok
+}
